@@ -21,17 +21,23 @@ ASSUMPTIONS = ["which of pre-/post-liquidation value is recorded at t_b is not f
 def plan(tier):
     q = tier == "quick"
     return [dict(unit="lev", n=500 if q else 15000, builds=["py", "so"], case_timeout=180),
-            dict(unit="fi", n=60 if q else 1500, builds=["py"], case_timeout=60)]
+            dict(unit="fi", n=60 if q else 1500, builds=["py"], case_timeout=60),
+            dict(unit="carry", n=300 if q else 8000, builds=["py", "so"], case_timeout=60)]
 
 
 def floors(tier):
-    return {"min_decided": 300, "counters": {"c16_bankrupt_runs": 40, "c16_solvent_runs": 100, "post_bankruptcy_dates": 300, "spy_calls": 5000, "fi_negative_dates": 50},
+    return {"min_decided": 300, "counters": {"c16_bankrupt_runs": 40, "c16_solvent_runs": 100, "post_bankruptcy_dates": 300, "spy_calls": 5000, "fi_negative_dates": 50, "carry_runs": 300, "carry_sign_flips": 100, "update_done_evals": 20000},
             "max_undecided_frac": 0.3}
 
 
 class SpyCtx(mon2.SharedCtx):
     def __init__(self):
         self.calls = []   # (id(top), now, algo name)
+        self.updates = []  # (id(root), date, value, bankrupt flag, fixed income) at every completed outermost update
+        ins.ON_UPDATE_DONE.append(self.on_update)
+
+    def on_update(self, root, date):
+        self.updates.append((id(root), date, root._value, bool(root.bankrupt), bool(root.fixed_income)))
 
     def before(self, probe, target):
         self.calls.append((id(ins.top(target)), target.now, probe.name))
@@ -45,6 +51,12 @@ def oracle(run, cnt, res, ctx):
     n = mon2.last_row(root) + 1
     common.bump(cnt, "spy_calls", len(ctx.calls))
     neg = [i for i in range(n) if V[i] < 0 and abs(V[i]) >= 1e-16]
+    # 'flagged on that date': no update of the real root completes with a negative value and the flag still down
+    for rid, date, val, flag, fi in getattr(ctx, "updates", ()):
+        if rid == id(root) and not fi:
+            common.bump(cnt, "update_done_evals")
+            if val < 0 and abs(val) >= 1e-16 and not flag:
+                return ("c16_negative_not_flagged_at_update", {"date": str(date), "value": val})
     for m in root.members:
         if m is not root and isinstance(m, StrategyBase) and m.bankrupt:
             return ("c16_sub_flagged", {"node": m.full_name})
@@ -137,9 +149,105 @@ def case_fi(cs):
     return common.result(common.HELD, sig=["fi", cs % 1000], nt=negs > 0, cnt=cnt, sample={"fi": "two FixedIncomeSecurity positions bought on the first date", "negative_dates": negs})
 
 
+class CallSpy(bt.Algo):
+    def __init__(self, ctx):
+        super(CallSpy, self).__init__()
+        self.ctx = ctx
+
+    def __deepcopy__(self, memo):
+        return self
+
+    def __call__(self, target):
+        self.ctx.calls.append((id(ins.top(target)), target.now, "spy"))
+        return True
+
+
+def case_carry(cs):
+    """a leveraged market-value root over a coupon-paying / cost-bearing instrument, priced so that on one date the value BEFORE the carry swept
+    that date and the value AFTER it lie on either side of zero (calibrated on a pilot run with flat prices): the carry is part of the value"""
+    import random
+
+    import pandas as pd
+    from bt import algos
+    from bt.core import CouponPayingSecurity, Security
+
+    ins.install()
+    rng = random.Random(cs)
+    nd = rng.randint(5, 9)
+    dts = pd.date_range("2021-03-01", periods=nd, freq="B")
+    K = rng.choice([1e4, 1e5])
+    L = rng.uniform(1.5, 4.0) * rng.choice([1, 1, -1])
+    p0 = 100.0
+    mode = rng.choice(["coupon", "cost", "both"])
+    cpn = rng.uniform(0.05, 0.6) if mode in ("coupon", "both") else 0.0
+    cost = rng.uniform(0.05, 0.6) if mode in ("cost", "both") else 0.0
+    js = rng.randint(2, nd - 2)
+    u = rng.uniform(-2.0, 2.0)
+    comm = rng.choice(["none", "none", "prop"])
+    integer = rng.random() < 0.3
+    mult = rng.choice([1, 1, 10])
+    sig = ["carry", mode, L > 0, comm, integer, mult]
+
+    def go(px):
+        ins.reset()
+        ctx = SpyCtx()
+        data = pd.DataFrame({"c": px, "e": [50.0] * nd}, index=dts)
+        ex = {"coupons": pd.DataFrame({"c": [cpn] * nd}, index=dts)}
+        if cost:
+            ex["cost_long"] = pd.DataFrame({"c": [cost] * nd}, index=dts)
+            ex["cost_short"] = pd.DataFrame({"c": [cost] * nd}, index=dts)
+        st = bt.Strategy("s", [CallSpy(ctx), algos.RunOnce(), algos.SelectThese(["c"]), algos.WeighSpecified(c=L), algos.Rebalance()],
+                         children=[CouponPayingSecurity("c", multiplier=mult), Security("e")])
+        r = w2.Run()
+        r.spec = {"comm": comm}
+        mark = len(ins.EV)
+        r.exc = None
+        try:
+            r.bt = bt.Backtest(st, data, initial_capital=K, integer_positions=integer, commissions=(ins.Comm(comm) if comm != "none" else None), additional_data=ex)
+            r.bt.run()
+        except Exception as e:
+            r.exc = e
+            return r, ctx
+        r.root = r.bt.strategy
+        r.all_events = ins.EV[mark:]
+        r.events = [e for e in r.all_events if e.get("root") is r.root]
+        r.dates = list(r.bt.dates)
+        return r, ctx
+
+    pilot, _ = go([p0] * nd)
+    if pilot.exc is not None:
+        return common.result(common.INC, sig=sig, why="pilot raised %s" % type(pilot.exc).__name__)
+    Vp = pilot.root.data["value"].to_numpy(dtype=float)
+    q = float(pilot.root["c"].data["position"].iloc[1]) * mult
+    y = Vp[js + 1] - Vp[js]          # rows are shifted by the synthetic first row: data row js is history row js + 1
+    if q == 0 or y == 0:
+        return common.result(common.OOD, sig=sig, why="pilot holds nothing / no carry")
+    p1 = p0 + (u * abs(y) - Vp[js]) / q
+    if not p1 > 0:
+        return common.result(common.OOD, sig=sig, why="calibrated price not positive")
+    run, ctx = go([p0] * js + [p1] * (nd - js))
+    cnt = {"carry_runs": 1}
+    w = {"case_seed": cs, "mode": mode, "leverage": L, "capital": K, "coupon": cpn, "cost": cost, "jump_row": js, "pre_carry_value_over_carry": u, "carry": y,
+         "calibrated_price": p1, "comm": comm, "integer": integer, "mult": mult}
+    if run.exc is not None:
+        if isinstance(run.exc, ZeroDivisionError) or common.is_guard_exc(run.exc):
+            return common.result(common.OOD, sig=sig, why="zero base / sizing guard", sample=w)
+        return common.result(common.INC, sig=sig, why="bt raised %s: %s" % (type(run.exc).__name__, str(run.exc)[:100]))
+    pre, post = u * abs(y), u * abs(y) + y
+    if (pre < 0) != (post < 0):
+        common.bump(cnt, "carry_sign_flips")
+    res = {}
+    out = oracle(run, cnt, res, ctx)
+    if out:
+        return common.result(common.VIOL, sig=sig, nt=True, cnt=cnt, mech=out[0], witness=dict(w, **out[1]), sample=w)
+    return common.result(common.HELD, sig=sig + [bool(run.root.bankrupt)], nt=True, cnt=cnt, sample=w)
+
+
 def run_case(unit, cs, idx, build, params):
     if unit == "fi":
         return case_fi(cs)
+    if unit == "carry":
+        return case_carry(cs)
     opts = dict(leverage=True, jumps=2, flows=False, solvers=False, late_p=0.2, nested_p=0.4)
     r = _w2case.run_w2(cs, [oracle], gen_opts=opts, setup=SpyCtx)
     if r.get("sig") is not None:
